@@ -31,7 +31,8 @@ EPS = 0.02
 
 def gen_plan(ch: Chooser, tier: str) -> dict[str, Any]:
     plan = spawning.gen_spawning_plan(ch, daemons=(0, 2), timers=(0, 1), pauses=False, exits=False,
-                                      delete_handlers=True, foreign_finalizers=True, max_objects=3)
+                                      delete_handlers=True, foreign_finalizers=True, max_objects=3,
+                                      sync_share=ch.choice([0.0, 0.0, 0.3, 0.7]))
     op = plan['operators'][0]
     if not any(h['kind'] in ('daemon', 'timer', 'delete') for h in op['handlers']):
         op['handlers'].append({'id': 'd9', 'kind': 'delete', 'opts': {}, 'script': [{'do': 'ok'}]})
